@@ -1,5 +1,6 @@
 import DracoModel.Proto
 import DracoModel.SeqEncoder
+import DracoModel.Options
 import Ops.Codec
 import Ops.Metadata
 /- op handler tying the sequential ENCODER model to the C++ encoders (C01/C06/C20):
@@ -18,42 +19,50 @@ import Ops.Metadata
 namespace Draco.Ops
 open Draco Draco.Proto Draco.SeqEnc
 
-/-- the attribute options of attribute `i` (type `t`) from the harness tokens:
-    keys are attribute ids with `expert=1`, attribute types otherwise -/
-def attOptsOf (opts : List String) (expert : Bool) (i t : Nat) : AttOpts :=
-  let key := toString (if expert then i else t)
-  let q : Option (Int × Option (List Nat × Nat)) :=
-    -- options are applied in key order (std::map): `q…` before `x…`
-    match kv opts ("x" ++ key) with
-    | some v =>
-      (match natList v with
-       | bits :: range :: origin => some ((bits : Int), some (origin, range))
-       | _ => none)
-    | none =>
-      match kv opts ("q" ++ key) with
-      | some v => some (intOf v, none)
-      | none => none
-  { quantBits := (q.map (·.1)).getD (-1),
-    explicitQuant := q.bind (·.2),
-    prediction := (kv opts ("p" ++ key)).map intOf }
+/-- the `EncoderOptions` object the harness op `enc` builds from its tokens (harness/ops_codec.cc):
+    `g:<name>=<int>` global ints (expert API only), speed, per-key prediction scheme (`p`),
+    quantization bits (`q`) and explicit quantization (`x`, applied after `q`: the tokens live in a
+    `std::map`), `builtin`.  Keys are attribute ids with `expert=1`, attribute types otherwise. -/
+def dracoOptionsOf (opts : List String) : Opt.DracoOptions := Id.run do
+  let expert := (kv opts "expert").isSome
+  let mut d : Opt.DracoOptions := {}
+  let keyVal := fun (t : String) => match t.splitOn "=" with
+    | [k, v] => some (k, v)
+    | _ => none
+  if expert then
+    for t in opts do
+      if let some (k, v) := keyVal t then
+        if k.startsWith "g:" then d := d.setGlobalInt (k.drop 2).toString (intOf v)
+  for t in opts do
+    if let some (k, v) := keyVal t then
+      if k == "method" then d := d.setGlobalInt "encoding_method" (intOf v)
+      if k == "speed" then
+        if let [e, dd] := intList v then d := d.setSpeed e dd
+  for pass in [0, 1, 2] do
+    for t in opts do
+      if let some (k, v) := keyVal t then
+        let c := k.toList.headD ' '
+        let rest := String.ofList (k.toList.drop 1)
+        if rest.toList.all Char.isDigit && !rest.isEmpty then
+          let key := natOf rest
+          if pass == 0 && c == 'p' then d := d.setAttributeInt key "prediction_scheme" (intOf v)
+          if pass == 1 && c == 'q' then d := d.setAttributeInt key "quantization_bits" (intOf v)
+          if pass == 2 && c == 'x' then
+            if let bits :: range :: origin := natList v then
+              d := ((d.setAttributeInt key "quantization_bits" (bits : Int)).setAttributeFloatVector key
+                      "quantization_origin" origin).setAttributeFloat key "quantization_range" range
+  if expert then
+    if let some v := kv opts "builtin" then
+      d := d.setGlobalBool "use_built_in_attribute_compression" (v == "1")
+  return d
 
+/-- the options as the sequential encoders see them: `Encoder::CreateExpertEncoderOptions` for the
+    type-keyed API, then the per-attribute resolution of `Opt.DracoOptions.resolve` -/
 def encOptsOf (opts : List String) (g : Geometry) : EncOpts :=
   let expert := (kv opts "expert").isSome
-  let speed : Int :=
-    match kv opts "speed" with
-    | some v =>
-      (match intList v with
-       | [e, d] => let m := max e d; if m == -1 then 5 else m
-       | _ => 5)
-    | none => 5
-  let gi := fun (name : String) (dflt : Bool) =>
-    if expert then (match kv opts ("g:" ++ name) with | some v => intOf v != 0 | none => dflt) else dflt
-  let builtin :=
-    if expert then (match kv opts "builtin" with
-      | some v => v == "1"
-      | none => gi "use_built_in_attribute_compression" true) else true
-  { speed := speed, builtin := builtin, compressConnectivity := gi "compress_connectivity" false,
-    atts := (zipIdxFrom 0 g.atts).map fun ia => attOptsOf opts expert ia.1 ia.2.attType }
+  let d := dracoOptionsOf opts
+  let d := if expert then d else d.toExpert (g.atts.map (·.attType))
+  d.resolve (g.atts.map (·.numComponents))
 
 structure StreamChoices where
   pred : List Bool := []
@@ -121,7 +130,8 @@ def choicesOfStream (bs : Bytes) : StreamChoices := Id.run do
 
 def choicesOf (sc : StreamChoices) : Choices :=
   { oracle := ProbOracle.float,
-    selectPrediction := fun i => if sc.pred.getD i true then Generated.PREDICTION_DIFFERENCE else Generated.PREDICTION_NONE,
+    -- ignored by `encodeGeometry`: the model computes the prediction methods from geometry and options
+    selectPrediction := fun _ => Generated.PREDICTION_DIFFERENCE,
     attScheme := fun i => sc.scheme.getD i .tagged,
     connScheme := sc.conn }
 
